@@ -65,7 +65,17 @@ pub const OPS: &[&str] = &[
     "query A { me { id } } query A { me { name } } { colors }",
     "{ me { friends { friends { friends { id } } } } a: colors a: me { id } }",
     "subscription { x } query { __schema { types { name } } __type(name: \"User\") { fields { name } } }",
+    "query A { ...F me { id } } query B { ...F } fragment F on Query { x: me { id } x: colors y: node(id: 1) { id } y: node(id: 2) { id } }",
 ];
+
+// Inputs on which `Type::parse` panics ("!", "") or silently ignores trailing input ("Int!!",
+// "[A!]! extra") are left out on purpose: those are C01/C07 matters (not simulation targets),
+// see DESIGN.md "observations outside the claimed properties".
+pub const TYPES: &[&str] = &["[Int!]!", "Int", "[Int", "[[A]]", "[A!", "[[Int]", "[!]"];
+
+// "nope id" is left out: its diagnostic points into the schema's file, which is not in the
+// field set's source map, and ariadne then prints "Unable to fetch source" to stderr.
+pub const FIELD_SETS: &[&str] = &["id name", "friends(first: 2) { id pet { __typename } }", "id {", "name name: id", "pet { ... on Dog { barks"];
 
 #[derive(Clone, Debug, PartialEq)]
 pub enum Task {
@@ -77,6 +87,8 @@ pub enum Task {
     Multi(usize, usize),
     Pack(u64),
     Ast(usize),
+    TypeParse(usize),
+    FieldSet(usize),
 }
 
 impl Task {
@@ -90,6 +102,8 @@ impl Task {
             Task::Multi(a, b) => format!("multi:{a}:{b}"),
             Task::Pack(raw) => format!("pack:{raw}"),
             Task::Ast(i) => format!("ast:{i}"),
+            Task::TypeParse(i) => format!("type:{i}"),
+            Task::FieldSet(i) => format!("fieldset:{i}"),
         }
     }
     fn from_s(s: &str) -> Option<Task> {
@@ -103,11 +117,16 @@ impl Task {
             ["multi", a, b] => Task::Multi(a.parse().ok()?, b.parse().ok()?),
             ["pack", r] => Task::Pack(r.parse().ok()?),
             ["ast", i] => Task::Ast(i.parse().ok()?),
+            ["type", i] => Task::TypeParse(i.parse().ok()?),
+            ["fieldset", i] => Task::FieldSet(i.parse().ok()?),
             _ => return None,
         })
     }
     fn needs_shared(&self) -> bool {
-        matches!(self, Task::Op(_) | Task::Serialize | Task::Introspect)
+        matches!(
+            self,
+            Task::Op(_) | Task::Serialize | Task::Introspect | Task::FieldSet(_)
+        )
     }
 }
 
@@ -212,8 +231,13 @@ pub fn gen_case(run_seed: u64, tier: Tier, force_cold: Option<bool>) -> Case {
                     9 => Task::Introspect,
                     10 => Task::Multi(wl.usize(SCHEMAS.len()), wl.usize(SCHEMAS.len())),
                     _ => {
-                        if wl.chance(1, 2) {
+                        let k = wl.below(4);
+                        if k == 0 {
                             Task::Ast(wl.usize(OPS.len()))
+                        } else if k == 1 {
+                            Task::TypeParse(wl.usize(TYPES.len()))
+                        } else if k == 2 {
+                            Task::FieldSet(wl.usize(FIELD_SETS.len()))
                         } else {
                             Task::Pack(match wl.below(4) {
                                 0 => TAG - 1 - wl.below(4),
@@ -318,6 +342,39 @@ fn run_task(task: &Task, shared: Option<&Arc<Valid<Schema>>>, shared_ids: &BTree
             output: pipeline::ast_bundle(OPS[*i], "ast.graphql"),
             ids: vec![],
         },
+        Task::TypeParse(i) => match apollo_compiler::ast::Type::parse(TYPES[*i], format!("type{i}.graphql")) {
+            Ok(ty) => TaskResult {
+                output: format!("TYPE OK {ty}"),
+                ids: vec![],
+            },
+            Err(errors) => TaskResult {
+                output: format!("TYPE ERR\n{}", pipeline::diag_bundle(&errors)),
+                // the file id of a failed parse stays observable through its diagnostics
+                ids: errors
+                    .iter()
+                    .next()
+                    .map(|d| source_ids(d.sources, &none))
+                    .unwrap_or_default(),
+            },
+        },
+        Task::FieldSet(i) => {
+            let schema = shared.expect("shared schema");
+            match apollo_compiler::executable::FieldSet::parse_and_validate(
+                schema,
+                apollo_compiler::name!("User"),
+                FIELD_SETS[*i],
+                format!("fieldset{i}.graphql"),
+            ) {
+                Ok(fs) => TaskResult {
+                    output: format!("FIELDSET OK {}", fs.serialize().no_indent()),
+                    ids: source_ids(&fs.sources, shared_ids),
+                },
+                Err(e) => TaskResult {
+                    output: format!("FIELDSET ERR\n{}", pipeline::diag_bundle(&e.errors)),
+                    ids: source_ids(&e.partial.sources, shared_ids),
+                },
+            }
+        }
         Task::Pack(raw) => {
             let mut out = String::new();
             if let Some(id) = FileId::__verif_from_raw(*raw) {
@@ -422,6 +479,25 @@ impl CaseResult {
 /// Execute a case in this process. For `cold` cases the caller must guarantee that nothing in
 /// this process has touched apollo-compiler yet.
 pub fn exec_case_here(case: &Case) -> CaseResult {
+    // a panic outside the simulated threads (building the shared schema, the sequential
+    // reference executions) is a finding about the code under test, not a harness error
+    match std::panic::catch_unwind(|| exec_case_inner(case)) {
+        Ok(r) => r,
+        Err(_) => CaseResult {
+            violation: Some(Violation {
+                class: "panic".into(),
+                detail: format!("outside the simulated threads: {}", crate::exec::take_last_panic()),
+            }),
+            counters: vec![],
+            interleaving: 0,
+            event_digest: 0,
+            switches: case.switches.clone(),
+            n_switches: 0,
+        },
+    }
+}
+
+fn exec_case_inner(case: &Case) -> CaseResult {
     apollo_compiler::verif::set_switch_hook(Some(sched::hook));
     if !case.cold {
         warm_up();
@@ -565,6 +641,8 @@ pub fn exec_case_here(case: &Case) -> CaseResult {
     let shared = shared_slot.lock().unwrap().clone();
     let sids = shared_ids.lock().unwrap().clone();
     let mut log = Digest::new();
+    // the reference executions must not themselves cross the counter wrap
+    FileId::__verif_set_next(1 << 40);
     if out.problems.is_empty() {
         for (tid, tasks) in case.threads.iter().enumerate() {
             for (k, task) in tasks.iter().enumerate() {
